@@ -23,6 +23,7 @@ ASSUMPTIONS = ["E2 small-curve retargeting (see C03)", "vf/ref/bip340_ref.py tra
                "against the 19 official vectors in the selftest", "no length strictness is demanded of the secret key argument"]
 OBLIGATIONS = {
     "concurrent_calls": "interleavings of two concurrent calls (single-case checks in two threads, cold and after warm-up calls)",
+    "hashed_length_at_chunk_boundary": "a message whose hashed length is at / next to a multiple of a common chunk size (up to 2 MiB)",
     "history_sequences": "operation sequences (non-initial process states) explored",
     "concurrent_first_calls": "interleavings of two concurrent first BIP340 calls explored",
     "e_zero": "a triple with challenge e = 0 (mod n) was signed or verified",
@@ -55,7 +56,7 @@ def chk_sign(case):
     import bits.bips.bip340 as b340
     C = _curve(case)
     sk = bytes.fromhex(case["sk"])
-    msg = bytes.fromhex(case["msg"])
+    msg = filler(*case["msg_fill"]) if "msg_fill" in case else bytes.fromhex(case["msg"])
     aux = None if case["aux"] is None else bytes.fromhex(case["aux"])
     scripted = bytes.fromhex(case.get("token", "00" * 32))
     saved = secrets.token_bytes
@@ -244,6 +245,8 @@ def jobs(tier, seed):
     from vf.runner import seq_jobs
     js += seq_jobs(4, curve=list(T[0]), weight=4)
     js += seq_jobs(2, weight=6, name="seqreal")
+    for sh in range(4):
+        js.append({"name": f"secp/longmsg/{sh}", "part": "real-longmsg", "shard": [sh, 4], "weight": 6})
     from vf.runner import concur_jobs
     js += concur_jobs(len(CONCUR_SCEN) - (1 if tier == "quick" else 0), curve=list(T[0]))
     for i in range(3):
@@ -255,7 +258,7 @@ def run_job(job):
     if job["part"] == "concurcase":
         from vf.runner import run_concur_job
         ops = seq_ops(dict(job, shard=[0, 1]))
-        scens = [{"threads": [ops[i] for i in th], "warm": [ops[i] for i in wm]} for th, wm in CONCUR_SCEN]
+        scens = [{"threads": [ops[i] for i in sc[0]], "warm": [ops[i] for i in sc[1]], "post": [ops[i] for i in (sc[2] if len(sc) > 2 else ())]} for sc in CONCUR_SCEN]
         return run_concur_job(job, scens, run_case, PROPERTY, CONCUR_FILES)
     if job["part"] == "seq":
         from vf.runner import run_seq_job
@@ -374,6 +377,21 @@ def run_job(job):
                                "token": filler(seed, "c12-token", 32).hex()}, chk_sign)
             if i % 20 == 0:
                 acc.sample({"sk": hex(d), "msg_len": ln, "aux": aux})
+    elif part == "real-longmsg":
+        # message lengths that make a hashed string (tag || tag || 32 || 32 || msg, i.e. 128 + len, or the message alone) end at
+        # / next to a multiple of the usual chunk sizes
+        from vf.classes import CHUNK_LENGTHS
+        lens = sorted({x for L in CHUNK_LENGTHS for x in (L - 129, L - 128, L - 127, L - 1, L, L + 1) if x >= 0})
+        sh, nsh = job["shard"]
+        for i, ln in enumerate(lens):
+            if i % nsh != sh:
+                continue
+            acc.evaluations += 1
+            acc.nontrivial += 1
+            acc.ob("hashed_length_at_chunk_boundary")
+            acc.check("sign", {"sk": (3).to_bytes(32, "big").hex(), "msg_fill": [seed, f"c12-long{ln}", ln], "aux": "00" * 32,
+                               "token": "5a" * 32}, chk_sign)
+        acc.sample({"message_lengths": lens})
     elif part == "flips":
         n, p = S.n, S.p
         b = job["base"]
